@@ -24,4 +24,14 @@ CHECKS = {
                 technique='bounded-exhaustive differential enumeration against independent specification encoders/decoders, both directions',
                 text='The same exhaustive sequence families as C11, but judged by reference implementations written from the Parquet encoding specification: carquet-encode -> reference-decode and reference-encode -> carquet-decode, with the reference encoder run in every legal form (RLE only, bit-packed only, multi-group, runs shorter than 8, zero-length runs, padded final groups, widened / arbitrary unused miniblock widths).',
                 note='Trusts /verif/ref (written from the specification, cross-checked against itself and published vectors by bin/selftest). Delta geometries other than 128/4 are not judged.'),
+    'C09': dict(harness='codec', mode='c09', variant='fast2', category='exploration',
+                quick_deadline=200, thorough_deadline=1500,
+                technique='bounded-exhaustive enumeration of inputs x codec configurations with guard-paged exact-size buffers',
+                text='Every input of the small-scope families (all strings over {a,b} up to 13/16 bytes and over {a,b,c} up to 8/10, every length 0..300 of four structured families, families built to alias the 16-bit hash positions beyond 64 KiB, a de Bruijn B(16,4) sequence, MiB-sized mixes) is compressed by Snappy, LZ4, GZIP and ZSTD (all levels on a reduced set) into a buffer of exactly compress_bound bytes fenced by PROT_NONE pages, decompressed into exactly len(x) fenced bytes and compared; capacities 0, 1, bound-1, bound+1 must be refused or handled correctly.',
+                note='Inputs above ~20 bytes are covered by enumerated families, not exhaustively. Product optimisation level (-O2, NDEBUG), guard pages instead of ASan so that libz/libzstd run unmodified.'),
+    'C10': dict(harness='codec', mode='c10', variant='fast2', category='exploration',
+                quick_deadline=200, thorough_deadline=1500,
+                technique='bounded-exhaustive grammar enumeration of Snappy/LZ4 streams and differential checking against strict reference decoders',
+                text='(a) every stream carquet compresses from the C09 small-scope inputs is decoded by strict reference decoders written from the format documents (LZ4 including end-of-block rules); (b) every valid stream of up to 4/5 elements over element alphabets covering all tag kinds, length forms, offsets and overlapping copies is generated together with its expected output and fed to carquet; (c) the invalid classes (zero offset, offset beyond output, truncation, preamble mismatch, trailing elements) are derived from every generated stream and must be rejected. The reference decoder is the judge in both directions.',
+                note='Trusts /verif/ref/ref_lz.c (cross-checked against the generator on every generated stream). Streams are bounded to 5 elements; literal payload content is a fixed tagged pattern.'),
 }
